@@ -196,17 +196,40 @@ Section Stripe.
     let R := length (mat st) - swrap st in
     forallb (fun k => list_eqb (nth (R + k) (mat st) []) (shift_row (nth k (mat st) []))) (seq 0 (swrap st)).
 
+  (* the same check without an index computation per cell (the extracted nat is unary):
+     the sequence is cut into its C columns once, sequence row r is read off the
+     columns, look-ahead rows are checked as shifted copies.
+     check_striped_fast s st = true <-> Striped s st (SpecProofs.check_fast_sound / _complete) *)
+  Fixpoint chunks (R n : nat) (s : list nat) : list (list nat) :=
+    match n with
+    | O => []
+    | S n' => firstn R s :: chunks R n' (skipn R s)
+    end.
+
+  Definition fast_row (cols : list (list nat)) (r : nat) : list nat :=
+    map (fun col => nth r col wild) cols.
+
+  Definition check_striped_fast (s : list nat) (st : sseq) : bool :=
+    let R := seq_rows (length s) in
+    let cols := chunks R C s in
+    (slen st =? length s) && (length (mat st) =? R + swrap st) &&
+    forallb (fun row => length row =? C) (mat st) &&
+    forallb (fun r => list_eqb (nth r (mat st) []) (fast_row cols r)) (seq 0 R) &&
+    check_wrap_rows st.
+
 End Stripe.
 
 (* ---------- the property checker used by the correspondence check ---------- *)
 
 (* What is observed of a StripedSequence through the public API after an operation:
-   the state (matrix, len(), wrap()), the results of Index at sampled positions,
-   count_symbols(), count_symbol(x) for every symbol x in index order, and whether
+   the state (matrix, len(), wrap()), the results of Index at sampled positions
+   (any, also out of range) and at every position 0..len()-1 in order (o_all; a
+   panic at any of them makes it a Panic), count_symbols(), count_symbol(x) for every symbol x in index order, and whether
    the generic and the AVX2 kernels, run on clones of the buffer, agreed. *)
 Record obs := mkObs {
   o_st : sseq;
   o_index : list (nat * res nat);
+  o_all : res (list nat);
   o_counts : res (list nat);
   o_count1 : res (list nat);
   o_agree : bool
@@ -231,16 +254,21 @@ Section Check.
   Definition count_each (st : sseq) : res (list nat) :=
     res_all (map (count_symbol K C st) (seq 0 K)).
 
+  (* Index at every position of the sequence *)
+  Definition index_all (st : sseq) : res (list nat) :=
+    res_all (map (s_index K C st) (seq 0 (slen st))).
+
   (* the model's observation of a state *)
   Definition observe (st : sseq) (idx : list nat) : obs :=
-    mkObs st (map (fun i => (i, s_index K C st i)) idx) (count_symbols K C st) (count_each st) true.
+    mkObs st (map (fun i => (i, s_index K C st i)) idx) (index_all st)
+          (count_symbols K C st) (count_each st) true.
 
   (* check_C04 s ob = true  ->  the observation ob is what property C04 demands of a
      buffer in which s was striped last (StripeProofs... C04.check_C04_sound) *)
   Definition check_C04 (s : list nat) (ob : obs) : bool :=
-    check_striped K C s (o_st ob) &&
-    check_wrap_rows K (o_st ob) &&
+    check_striped_fast K C s (o_st ob) &&
     forallb (fun p => if fst p <? length s then is_ok_nat (snd p) (nth (fst p) s (wild K)) else true) (o_index ob) &&
+    is_ok_list (o_all ob) s &&
     is_ok_list (o_counts ob) (lin_counts K s) &&
     is_ok_list (o_count1 ob) (lin_counts K s) &&
     o_agree ob.
